@@ -60,6 +60,15 @@ def run(chk):
     small = [e for e in rg if sum(1 for _ in _nodes(e)) <= 7]
     big = [e for e in rg if sum(1 for _ in _nodes(e)) > 7]
     es += small + (rng.sample(big, min(len(big), 6000)) if chk.quick else big)
+    # the same constant subexpression at several places that regrouping cannot merge (inside two calls, in base and
+    # exponent, in numerator and denominator): every occurrence is hoisted and every hoisted variable is assigned
+    X, Yv, Z, W = ["v", "x"], ["v", "y"], ["v", "<state>z"], ["v", "<p>w"]
+    f = lambda *a, **kw: ["call", ["v", "<func>f"], list(a), [[k, v] for k, v in kw.items()]]     # noqa: E731
+    g = lambda a, b: ["call", ["v", "<func>g"], [a, b], []]                                         # noqa: E731
+    for K in (["sum", [Z, W]], ["prod", [["c", 2], Z]], ["pow", Z, ["c", 2]], f(Z), ["sum", [Z, ["c", 1]]]):
+        es += [["sum", [f(K, k=X), g(K, X)]], ["sum", [g(K, X), g(K, Yv)]], ["prod", [f(K), ["sum", [X, f(K)]]]],
+               ["sum", [["pow", ["sum", [K, X]], ["c", 2]], ["prod", [X, K]]]], ["sum", [["prod", [X, f(K)]], ["quot", Yv, f(K)]]],
+               g(["sum", [K, X]], ["sum", [K, Yv]]), ["sum", [f(X, k=K), f(Yv, k=K, m=K)]]]
     cases = []
     for e in es:
         vs = exprgen.data_vars(e) + (["arr"] if "arr" in exprs.variables(e) else [])
